@@ -153,9 +153,15 @@ class Pseudo2NetCDF:
                 pvar = pvar[...]
             nvar[...] = pvar
         elif isinstance(pvar[...], MaskedArray):
-            # the value netCDF masks on reading is the disk _FillValue
-            nvar[:] = pvar[...].filled(getattr(nvar, '_FillValue', getattr(
-                nvar, 'fill_value', getattr(pvar, 'missing_value', -9999))))
+            if isinstance(nvar, MaskedArray):
+                # an in-memory masked variable keeps the mask itself
+                nvar[:] = pvar[...]
+            else:
+                # the value netCDF masks on reading is the disk _FillValue
+                nvar[:] = pvar[...].filled(getattr(
+                    nvar, '_FillValue', getattr(
+                        nvar, 'fill_value', getattr(
+                            pvar, 'missing_value', -9999))))
         else:
             nvar[:] = pvar[...]
 
